@@ -61,6 +61,9 @@ func c08KinkModel(raw []RawType, i int32, enable bool) int32 {
 func verifC08Blocks() {
 	zeroThr := vParam("zerothreshold", 0) == 1
 	npre, nsamp := vParam("npre", 3), vParam("nsamp", 5)
+	if vParam("onlymode", -1) >= 0 {
+		vAssume(true)
+	}
 	if zeroThr {
 		npre, nsamp = 4, 8
 		vStubFunc("github.com/usnistgov/dastard.zeroThreshold", c08KinkModel)
@@ -77,6 +80,31 @@ func verifC08Blocks() {
 	}
 	rigA := newTRig(1, npre, nsamp, total, nil, true)
 	rigA.signed = false
+	if np := vParam("pulses", 0); np > 0 {
+		// long records: the stream is a staircase with np steps at case-split positions and
+		// symbolic heights (each step is one edge), so that paths do not multiply per sample
+		base := vSymU16("base")
+		pos := make([]int, np)
+		hts := make([]uint16, np)
+		prev := npre
+		sum := uint32(base)
+		for i := 0; i < np; i++ {
+			pos[i] = vRange("pulse"+string(rune('0'+i)), prev+1, total-1)
+			prev = pos[i]
+			hts[i] = vSymU16("height" + string(rune('0'+i)))
+			sum += uint32(hts[i])
+		}
+		vAssume(sum <= 65535)
+		for k := 0; k < total; k++ {
+			v := base
+			for i := 0; i < np; i++ {
+				if k >= pos[i] {
+					v += hts[i]
+				}
+			}
+			rigA.truth[0][k] = RawType(v)
+		}
+	}
 	ts := c08State(mode, zeroThr, nmono)
 	full := &FullTriggerState{ChannelIndices: []int{0}, TriggerState: ts}
 	if nmono > nsamp-npre {
